@@ -7,6 +7,7 @@ use std::io::{BufRead, Write};
 mod common;
 mod conc_mode;
 mod config_mode;
+mod deque_mode;
 mod sketch_mode;
 mod stress_mode;
 mod sync_mode;
@@ -41,6 +42,7 @@ fn run_case(lines: Vec<String>, tx: std::sync::mpsc::Sender<String>) {
             let r: Result<Box<dyn Runner>, _> = std::panic::catch_unwind(std::panic::AssertUnwindSafe(|| -> Box<dyn Runner> {
                 match kind {
                     Some("sketch") => Box::new(sketch_mode::SketchRunner::default()),
+                    Some("deque") => Box::new(deque_mode::DequeRunner::default()),
                     Some("conc") => Box::new(conc_mode::ConcRunner::new(&cfg)),
                     Some("config") => Box::new(config_mode::ConfigRunner),
                     Some("stress") => Box::new(stress_mode::StressRunner::new(&cfg)),
